@@ -14,7 +14,8 @@ typedef uint64_t (*WorkFn)(int scale);
 // DESCENDANT: works on objects that the main thread derived (clone / copy / assignment / Packet copy / composition) from a common
 // ancestor before the threads start (harness/C18_descend.cpp).  Such a workload consumes its objects: it can run once per
 // setup_descendants() and never on two threads at a time.  CANARY_COPYSHARE: the racy canary of that class.
-enum Kind { LIBTINS = 0, CANARY_RACY = 1, CANARY_GUARDED = 2, CANARY_LOCKED = 3, DESCENDANT = 4, CANARY_COPYSHARE = 5 };
+enum Kind { LIBTINS = 0, CANARY_RACY = 1, CANARY_GUARDED = 2, CANARY_LOCKED = 3, DESCENDANT = 4, CANARY_COPYSHARE = 5, CANARY_FOREIGN = 6 };
+// CANARY_FOREIGN: state inside an uninstrumented library (gmtime()'s static result buffer in libc).
 
 struct Workload {
     const char* name;
